@@ -1,0 +1,152 @@
+//go:build verif
+
+// Machine-checked contracts for package dedup (comment-only; read by /verif/govc).
+// Property C29: request deduplication runs at most one execution per key.
+//
+// Token protocol of RequestCache: c.pending[id] == true is the token "an execution of id is in
+// flight". reserve hands the token out only when it is absent (and no unexpired error is cached)
+// by setting it; only the holder gives it back, through release or error. Start passes the token
+// to the goroutine it spawns (which runs the request exactly once and gives the token back), or
+// gives it back itself when no worker is free. Hence at most one execution per id is in flight.
+
+package dedup
+
+//@ specfunc rcshape(c *RequestCache) bool = c != nil && c.pending != nil && c.errors != nil && c.clk != nil
+
+//@ lockinv RequestCache.mu self c guards contents pending, contents errors, lastClean, isNotFound, type cachedError
+//@   invariant errors_ptr: forall k string :: (k in c.errors) ==> c.errors[k] != nil && allocated(c.errors[k])
+//@   invariant errors_real: forall k string :: (k in c.errors) ==> c.errors[k].err != nil
+//@   invariant pending_true: forall k string :: (k in c.pending) ==> c.pending[k]
+//@   invariant matcher_set: c.isNotFound != nil
+
+//@ func cachedError.expired
+//@   requires e != nil
+//@   ensures result <==> now > e.expiresAt
+
+// reserve: hands out the token iff nobody holds it and no unexpired error is cached; otherwise it
+// reports that state and leaves the token alone. Cleanup drops only expired errors.
+//@ func RequestCache.reserve
+//@   requires rcshape(c)
+//@   modifies map c.pending, map c.errors, c.lastClean, c.clk.now
+//@   ensures pending_reported: old(id in c.pending) ==> result == ErrRequestPending
+//@   ensures acquired: result == nil ==> !old(id in c.pending) && (id in c.pending) && c.pending[id]
+//@   ensures cached_reported: !old(id in c.pending) && old(id in c.errors) && c.clk.now <= old(c.errors[id].expiresAt) ==> result == old(c.errors[id].err) && !(id in c.pending)
+//@   ensures no_cached_error: !old(id in c.pending) && !old(id in c.errors) ==> result == nil
+//@   ensures expired_error_ignored: !old(id in c.pending) && old(id in c.errors) && old(c.clk.now) > old(c.errors[id].expiresAt) ==> result == nil
+//@   ensures refused_leaves_token: result != nil ==> ((id in c.pending) <==> old(id in c.pending))
+//@   ensures others: forall k string :: k != id ==> ((k in c.pending) <==> old(k in c.pending))
+//@   ensures errors_only_expire: forall k string :: ((k in c.errors) ==> old(k in c.errors) && c.errors[k] == old(c.errors[k])) && (old(k in c.errors) && !(k in c.errors) ==> c.clk.now > old(c.errors[k].expiresAt))
+//@   loop 0 invariant errors_only_expire: forall k string :: ((k in c.errors) ==> old(k in c.errors) && c.errors[k] == old(c.errors[k])) && (old(k in c.errors) && !(k in c.errors) ==> c.clk.now > old(c.errors[k].expiresAt))
+//@   loop 0 invariant errors_ptr: forall k string :: (k in c.errors) ==> c.errors[k] != nil && allocated(c.errors[k])
+//@   loop 0 invariant clock: c.clk.now >= old(c.clk.now)
+
+// release: the holder gives the token back.
+//@ func RequestCache.release
+//@   requires rcshape(c)
+//@   modifies map c.pending
+//@   ensures released: !(id in c.pending)
+//@   ensures others: forall k string :: k != id ==> ((k in c.pending) <==> old(k in c.pending))
+
+// error: the holder gives the token back and caches the error with the TTL chosen by the matcher.
+//@ func RequestCache.error
+//@   requires rcshape(c) && err != nil
+//@   modifies map c.pending, map c.errors, c.clk.now
+//@   ensures released: !(id in c.pending)
+//@   ensures cached: (id in c.errors) && c.errors[id] != nil && c.errors[id].err == err && (c.errors[id].expiresAt == c.clk.now + c.config.NotFoundTTL || c.errors[id].expiresAt == c.clk.now + c.config.ErrorTTL)
+//@   ensures others: forall k string :: k != id ==> ((k in c.pending) <==> old(k in c.pending)) && ((k in c.errors) <==> old(k in c.errors)) && c.errors[k] == old(c.errors[k])
+
+// run: executes the request once and gives the token back on both outcomes.
+//@ func RequestCache.run
+//@   requires rcshape(c) && r != nil
+//@   modifies map c.pending, map c.errors, c.clk.now
+//@   ensures token_returned: !(id in c.pending)
+
+//@ func RequestCache.reserveWorker
+//@   requires c != nil
+//@   ensures result == nil || result == ErrWorkersBusy
+
+//@ func RequestCache.releaseWorker
+//@   requires c != nil
+
+// Start: a refused start leaves nothing pending that it put there; an accepted one has passed the
+// token to the spawned goroutine.
+//@ func RequestCache.Start
+//@   requires rcshape(c) && r != nil
+//@   modifies map c.pending, map c.errors, c.lastClean, c.clk.now
+//@   assert spawn_holds_token: at RequestCache.Start$1#0 :: (id in c.pending) && !old(id in c.pending)
+//@   assert worker_sought_with_token: at RequestCache.reserveWorker#0 :: (id in c.pending) && !old(id in c.pending)
+//@   ensures busy_leaves_nothing: result == ErrWorkersBusy ==> !(id in c.pending)
+//@   ensures pending_reported: old(id in c.pending) ==> result == ErrRequestPending
+//@   ensures cached_reported: !old(id in c.pending) && old(id in c.errors) && c.clk.now <= old(c.errors[id].expiresAt) ==> result == old(c.errors[id].err) && !(id in c.pending)
+//@   ensures refused_leaves_token: result != nil ==> ((id in c.pending) <==> old(id in c.pending))
+//@   ensures others: forall k string :: k != id ==> ((k in c.pending) <==> old(k in c.pending))
+
+// The goroutine spawned by Start.
+//@ func RequestCache.Start$1
+//@   requires rcshape(c) && r != nil
+//@   modifies map c.pending, map c.errors, c.clk.now
+//@   ensures token_returned: !(id in c.pending)
+
+// ---- interval trap -----------------------------------------------------------------------------
+//
+// The ghost counter task.runs (contracts/externs/dedup.spec) counts invocations of the task.
+//@ lockinv IntervalTrap.RWMutex self t guards prev
+
+// ready compares a fresh clock reading with the recorded time of the previous run.
+//@ func IntervalTrap.ready
+//@   requires t != nil && t.clk != nil
+//@   modifies t.clk.now
+//@   ensures result <==> t.clk.now > t.prev + t.interval
+//@   ensures t.clk.now >= old(t.clk.now)
+
+// Trap runs the task at most once per call, only while holding the write lock, only when more than
+// `interval` has passed since the recorded time of the previous run, and then records a clock
+// reading taken after the run: two runs are therefore more than `interval` apart.
+//@ func IntervalTrap.Trap
+//@   requires t != nil && t.clk != nil && t.task != nil
+//@   modifies t.prev, t.clk.now, t.task.runs
+//@   assert only_when_due: at IntervalTask.Run#0 :: t.clk.now > t.prev + t.interval
+//@   ensures at_most_once: t.task.runs == old(t.task.runs) || t.task.runs == old(t.task.runs) + 1
+//@   ensures run_recorded: t.task.runs == old(t.task.runs) + 1 ==> t.prev == t.clk.now
+
+// ---- limiter -----------------------------------------------------------------------------------
+//
+// Per task object, the flag `running` (guarded by the task's own lock t.cond.L) is the token "a
+// runner invocation for this task is in flight": getOutput invokes the runner only after it found
+// the flag clear and set it in one critical section, and clears it only after the runner returned.
+// The ghost counter runner.runs (contracts/externs/dedup.spec) counts runner invocations.
+//@ lockinv task.cond.L self t guards running, output, expiresAt
+
+//@ func task.expired
+//@   requires t != nil
+//@   ensures result <==> now > t.expiresAt
+
+//@ func Limiter.getOutput
+//@   requires l != nil && t != nil && l.clk != nil && l.runner != nil && t.cond != nil
+//@   modifies t.running, t.output, t.expiresAt, l.clk.now, l.runner.runs
+//@   assert run_as_owner: at TaskRunner.Run#0 :: t.running && !old(t.running) && l.clk.now > t.expiresAt
+//@   ensures at_most_once: l.runner.runs == old(l.runner.runs) || l.runner.runs == old(l.runner.runs) + 1
+//@   ensures owner_clears: l.runner.runs == old(l.runner.runs) + 1 ==> !t.running
+
+// Every stored task is a live object whose lock exists.
+//@ lockinv Limiter.RWMutex self l guards contents tasks
+//@   invariant tasks_live: forall k any :: (k in l.tasks) ==> l.tasks[k] != nil && allocated(l.tasks[k]) && l.tasks[k].cond != nil
+
+// Run looks the task of the input up (creating it under the write lock when it is missing) and
+// runs it through getOutput. one_task_per_key is the obligation that the task handed to getOutput
+// is still the one registered for the input when getOutput is reached, whatever other threads did
+// to the table in between (unlocked(e) gives everything guarded by a lock that is not held an
+// arbitrary value). It does not hold: see /verif/known_findings.txt.
+//@ func Limiter.Run
+//@   requires l != nil && l.tasks != nil && l.clk != nil && l.runner != nil && l.gc != nil && l.gc.clk != nil && l.gc.task != nil
+//@   modifies map l.tasks, l.gc.prev, l.gc.clk.now, l.gc.task.runs, l.clk.now, l.runner.runs, every task.running, every task.output, every task.expiresAt
+//@   assert task_is_live: at Limiter.getOutput#0 :: t != nil && t.cond != nil
+//@   assert one_task_per_key: at Limiter.getOutput#0 :: unlocked((input in l.tasks) && l.tasks[input] == t)
+
+// The collector drops only tasks it saw expired and idle under the task's own lock.
+//@ func limiterTaskGC.Run
+//@   requires gc != nil && gc.limiter != nil && gc.limiter.tasks != nil && gc.limiter.clk != nil
+//@   modifies *
+//@   assert only_idle_expired: at builtin.delete#0 :: !t.running && gc.limiter.clk.now > t.expiresAt
+//@   loop 0 invariant live: forall k any :: (k in gc.limiter.tasks) ==> gc.limiter.tasks[k] != nil && allocated(gc.limiter.tasks[k]) && gc.limiter.tasks[k].cond != nil
+//@   loop 0 invariant only_removals: forall k any :: (k in gc.limiter.tasks) ==> old(k in gc.limiter.tasks) && gc.limiter.tasks[k] == old(gc.limiter.tasks[k])
